@@ -16,7 +16,7 @@ Vertex = Vertex  # re-exported for eglib.graphs
 
 
 class SubVertex(Vertex):
-    pass
+    kind = "k"      # a class-level constant (title formats may refer to it just like to an instance attribute)
 
 
 class FalsyVertex(Vertex):
@@ -167,12 +167,19 @@ class RoadLink(DirectedEdge):
         super().__init__(origin, destination, uid=uid, attributes=attributes)
 
 
+class BareEdge(DirectedEdge):
+    """A directed edge whose constructor takes the two ends and nothing else (builders call `lnktype(v1, v2)`)."""
+
+    def __init__(self, v1=None, v2=None):
+        super().__init__(v1, v2)
+
+
 # a DIFFERENT class with the same module and qualified name as SubDirected, but of another kind (a class statement
 # executed again with another base, as happens with factories / reloaded plugins)
 SubDirectedTwin = type("SubDirected", (UnDirectedEdge,), {"__module__": __name__, "__qualname__": "SubDirected"})
 
 LINK_CLASSES = [DirectedEdge, UnDirectedEdge, SubDirected, SubUndirected, OddLink, SubOdd, MixedDirected, OddDirected, SubDirectedTwin,
-                BothEdge, EmptyDirected, RoadLink]
+                BothEdge, EmptyDirected, RoadLink, BareEdge]
 LINK_NAMES = [c.__name__ for c in LINK_CLASSES]
 KIND = {
     DirectedEdge: "D",
@@ -187,6 +194,7 @@ KIND = {
     BothEdge: "U",
     EmptyDirected: "D",
     RoadLink: "D",
+    BareEdge: "D",
 }
 VERTEX_CLASSES = [Vertex, SubVertex, FalsyVertex, EmptyLenVertex, MixedVertex, SubVertexTwin, ViewVertex, HotVertex, StrVertex, Universe]
 # classes usable in histories (importable: histories are pickled; insertion-ordered `links`)
